@@ -570,7 +570,7 @@ func (p *parser) primary() (*Expr, error) {
 // file structure
 
 var clauseKeywords = map[string]bool{
-	"contract": true, "guarded": true, "let": true, "callsite": true, "assert": true, "unfold": true, "assume": true, "requires": true, "ensures": true, "modifies": true,
+	"contract": true, "guarded": true, "let": true, "callsite": true, "nocall": true, "assert": true, "unfold": true, "assume": true, "requires": true, "ensures": true, "modifies": true,
 	"invariant": true, "decreases": true, "loop": true, "spec": true, "axiom": true, "ghost": true,
 	"valid": true, "inline": true, "pure": true, "wraps": true, "maypanic": true, "theory": true,
 	"package": true, "import": true, "opaque": true, "split": true, "noeffect": true, "trusted": true,
@@ -708,6 +708,13 @@ func ParseSpecFile(path, defaultPkg string) (*SpecFile, error) {
 			}
 			curSite = &CallSiteSpec{Pattern: strings.TrimSpace(rest)}
 			cur.Sites = append(cur.Sites, curSite)
+		case "nocall":
+			// nocall <pattern>: the function must not contain a call matching the pattern
+			if cur == nil {
+				return nil, fail(fmt.Errorf("nocall outside contract"))
+			}
+			cur.Sites = append(cur.Sites, &CallSiteSpec{Pattern: strings.TrimSpace(rest), Forbidden: true})
+			curSite = nil
 		case "assert":
 			if cur == nil || curSite == nil {
 				return nil, fail(fmt.Errorf("assert outside callsite"))
@@ -1172,6 +1179,7 @@ type GuardSpec struct {
 }
 
 type CallSiteSpec struct {
+	Forbidden bool // `nocall`: no matching call may exist
 	Pattern string
 	Asserts []*Clause
 }
